@@ -60,7 +60,7 @@ def main():
         }],
         "checks": checks,
         "not_applicable": na,
-        "notes": "Entry point ./check <ID> quick|thorough|replay. Exit 0 held / 1 VIOLATION / 2 inconclusive. AGE_SRC=<copy> redirects the harness to a scratch copy of the repository (used by mutants/run.py). known_findings.jsonl is read-only at run time.",
+        "notes": "Entry point ./check <ID> quick|thorough|replay. Exit 0 held / 1 VIOLATION / 2 inconclusive. AGE_SRC=<copy> redirects the harness to a scratch copy of the repository (used by mutants/run.py). known_findings.txt is read-only at run time.",
     }
     out = os.path.join(ROOT, "MANIFEST.json")
     json.dump(man, open(out, "w"), indent=1)
